@@ -1,6 +1,7 @@
 package wire
 
 import (
+	"bufio"
 	"bytes"
 	"fmt"
 	"io"
@@ -255,6 +256,10 @@ func c13Stack(r *eng.Run) {
 	var gotPings [][]byte
 	curCompressed := false
 	rd := &wsutil.Reader{Source: src, State: rst, Extensions: []wsutil.RecvExtension{&rms}}
+	if r.T.Chance(sim.LCfg, 1, 3) {
+		rd.Source = bufio.NewReaderSize(src, []int{16, 64, 4096}[r.T.Int(sim.LSize, 3)])
+		r.Probe("reader_source_is_bufio_reader")
+	}
 	if r.T.Chance(sim.LCfg, 1, 4) {
 		// The application skips the header check and did not mark the state
 		// as extended: the attached extension must be consulted all the same.
@@ -334,6 +339,14 @@ func c13Stack(r *eng.Run) {
 	_ = recvSide
 }
 
+// rsv2Recv is an application receive extension that owns RSV2.
+type rsv2Recv struct{}
+
+func (rsv2Recv) UnsetBits(h ws.Header) (ws.Header, error) {
+	h.Rsv &^= 2
+	return h, nil
+}
+
 // midMessageWire reports whether the bytes sent so far end inside a message.
 func midMessageWire(out []byte) bool {
 	fs, rest, err := ref.DecodeAll(out)
@@ -386,6 +399,26 @@ func c13Scripted(r *eng.Run) {
 	st := sideState(side) | ws.StateExtended
 	var ms wsflate.MessageState
 	rd := &wsutil.Reader{Source: p, State: st, Extensions: []wsutil.RecvExtension{&ms}}
+	// A second receive extension of the application that owns RSV2 (clears
+	// it), chained after or before the message state.
+	other := []int{0, 0, 1, 2}[r.T.Int(sim.LCfg, 4)]
+	var clear2 byte
+	switch other {
+	case 1:
+		rd.Extensions = []wsutil.RecvExtension{&ms, rsv2Recv{}}
+	case 2:
+		rd.Extensions = []wsutil.RecvExtension{rsv2Recv{}, &ms}
+	}
+	if other != 0 {
+		clear2 = 2
+		r.Probe("two_receive_extensions_chained")
+	}
+	if r.T.Chance(sim.LCfg, 1, 3) {
+		// The connection is read through the application's bufio.Reader:
+		// later headers are usually buffered already when they are parsed.
+		rd.Source = bufio.NewReaderSize(p, []int{16, 64, 4096}[r.T.Int(sim.LSize, 3)])
+		r.Probe("reader_source_is_bufio_reader")
+	}
 	if r.T.Chance(sim.LCfg, 1, 4) {
 		rd.SkipHeaderCheck = true
 		rd.State = sideState(side)
@@ -459,7 +492,7 @@ func c13Scripted(r *eng.Run) {
 		if err != nil {
 			r.Failf("reader_error", "frame %d (%s): %v", idx, frameStr(f), err)
 		}
-		wantRsv := f.Rsv
+		wantRsv := f.Rsv &^ clear2
 		if !ref.IsControl(f.Op) && f.Op != ref.OpCont {
 			wantRsv &^= 4
 			if ms.IsCompressed() != (f.Rsv&4 != 0) {
@@ -519,7 +552,7 @@ func c13Scripted(r *eng.Run) {
 		}
 	}
 	for _, h := range interHdr {
-		want := b &^ 0
+		want := b &^ clear2
 		if h.Rsv != want {
 			r.Failf("rsv_not_cleared", "intermediate control header rsv=%d, sent %d (RSV2/3 must be untouched)", h.Rsv, want)
 		}
